@@ -143,6 +143,18 @@ def fill_scales_for_dyadic_pyramid(info, target_chunk_size=64,
     max_downscale_level = max(max_downscale_level, 1)
     info["scales"] = [downscale_info(scale_level)
                       for scale_level in range(max_downscale_level)]
+
+    # With anisotropic voxels the smallest resolution does not double at
+    # every level, so keys rounded in key_unit can collide (e.g. 0.8 nm and
+    # 1.2 nm are both "1nm"): fall back to finer units until they are unique.
+    units = list(LENGTH_UNITS)
+    for unit in units[units.index(key_unit):]:
+        keys = [format_length(min(scale_info["resolution"]), unit)
+                for scale_info in info["scales"]]
+        if len(set(keys)) == len(keys):
+            break
+    for scale_info, key in zip(info["scales"], keys):
+        scale_info["key"] = key
     return info
 
 
